@@ -4,6 +4,10 @@
 \* two entries, uniform} from {const 0/2, child+2, child*3, child+arg, arg*(1+child)}, plus the "no operation" case
 \* that carries the Complexity(type, field) table of EVERY GraphQL field of every object type under
 \* {each entry alone x (const 2, child+2, child+arg), all entries const 7, none}.
+\* Measured: 39 initial states (38 operations + the table case), 2,786 inputs (2,730 operation cases + 56 table
+\* assignments with 78 rows each), 5,611 distinct states, depth 3; 1 worker ~12-27 s.
+\* -coverage 1: Init 39, ChooseCosts 2786, Compute 2786 (no action with count 0).
+\* Teeth (by hand): CustomOf answering only for the field declared first of a group -> TBinding and TAlias violated.
 CONSTANTS
   MaxH = 2
   MaxD = 1
